@@ -60,11 +60,7 @@ Proof. exact (@mchk_user_first). Qed.
 Print Assumptions C19_mc_user_weights.
 
 (* non-vacuity: a real 3-iteration VEGAS run in double precision starts from the uniform grid, the grid of
-   iteration 1 is the refinement of iteration 0's grid and data, and it has moved *)
-Example C19_example : match ex19_run with
-  | Ok (c, _, ls) => length ls = 3%nat /\
-      match b_results (vc_base c) with
-      | [r0; r1; r2] => v_pdf r0 = uniform_pdf 1 4 /\ refine_pdf ex19_L (v_pdf r0) (one B64) (v_adj r0) = Ok (v_pdf r1) /\ v_pdf r1 <> v_pdf r0
-      | _ => False end
-  | UB _ => False end.
+   iteration 1 is the refinement of iteration 0's grid and data, and it has moved (ex19_check compares the
+   grids through their sign/mantissa/exponent representation) *)
+Example C19_example : ex19_check = true.
 Proof. exact c19_example. Qed.
